@@ -152,6 +152,11 @@ Definition sum_chk (w : Z) : agg Z (Z * bool) (option Z) :=
                 if in_i w (sum + osum) then Ok (sum + osum, valid || ovalid) else Err)
     (fun s => let '(sum, valid) := s in if valid then Some sum else None).
 
+(* SumUInt64 (a40c65193): Signature UInt64 -> Int128, state SumStateCheckedAdd<i128, u64>: inputs in [0, 2^64),
+   checked i128 accumulator (overflow needs more than 2^63 rows: proofs sum_u64_exact) *)
+Definition sum_u64 : agg Z (Z * bool) (option Z) := sum_chk 128.
+Definition is_u64 (z : Z) : Prop := 0 <= z < 2 ^ 64.
+
 (* SumStateAdd<f64> { sum, valid }: `sum += input; valid = true`; `sum += other.sum; valid ||= other.valid` *)
 Definition sum_f : agg Q (Q * bool) fres :=
   mkAgg (0%Q, false)
@@ -172,6 +177,11 @@ Definition avg_i : agg Z (Z * Z) fres :=
     (fun s x => let '(sum, count) := s in Ok (sum + x, count + 1))
     (fun s o => let '(sum, count) := s in let '(osum, ocount) := o in Ok (sum + osum, count + ocount))
     (fun s => let '(sum, count) := s in avg_final (qz sum) count).
+
+(* Avg::<PhysicalU64, i128> (a40c65193): UInt64 -> Float64, the same AvgStateF64 with T = i128 and inputs in
+   [0, 2^64); the native `+=` cannot leave i128 below 2^63 rows (proofs avg_u64_accumulator_in_range), so the
+   accumulator is unbounded in the model as for avg_i *)
+Definition avg_u64 : agg Z (Z * Z) fres := avg_i.
 
 Definition avg_f : agg Q (Q * Z) fres :=
   mkAgg (0%Q, 0)
